@@ -5,7 +5,7 @@ From Coq Require Import Lia.
 From RV.Model Require Import Base Word Limbs Bytes DivRecip DivSmall Redc.
 From RV.Model Require DivRef DivKnuth Shift.
 From RV.Gen Require Import Prim Scalar.
-From RV.Model Require Add Mul UDiv Conv Bits Pow Modular GcdMatrix Gcd.
+From RV.Model Require Add Mul UDiv Conv Bits Pow Modular GcdMatrix Gcd Log.
 From RV.Proofs Require Import BaseFacts PfGenScalar PfGenAdd PfGenMul PfGenDiv PfGenSpecial PfGenCtor PfGenBits PfGenDivRef PfGenLimbs PfGenRedc PfGenKnuth PfGenShift PfGenPow PfGenModular PfGenMatrix PfGenGcd PfGenInvRing PfGenDivTop.
 
 Theorem GenTie_source_equals_model :
@@ -543,6 +543,14 @@ Proof.
 Qed.
 Print Assumptions GenTie_from_limbs_slice.
 
+(* src/log.rs: checked_log2, log2 (the other logarithms go through the f64 estimate approx_log2) *)
+Theorem GenTie_log2 : forall bits a,
+  0 <= bits -> bits + 7 < B -> 64 * nlimbs bits < B -> canon bits a ->
+  g_checked_log2 bits (nlimbs bits) a = Log.checked_log2 bits a /\
+  g_log2 bits (nlimbs bits) a = Log.log2 bits a.
+Proof. exact g_log2_eq. Qed.
+Print Assumptions GenTie_log2.
+
 (* the premises are satisfiable and the generated code computes: reciprocal(2^63) = 2^64 - 1 *)
 Example GenTie_nonvacuous :
   g_reciprocal_mg10 (2 ^ 63) = Val (2 ^ 64 - 1) /\ g_mask 65 = Val 1 /\ g_nlimbs 65 = Val 2 /\
@@ -567,6 +575,8 @@ Example GenTie_nonvacuous :
   g_bitxor 65 2 [5; 1] [3; 1] = Val [6; 0] /\
   g_leading_zeros 65 2 [5; 0] = Val 62 /\
   g_reverse_bits 65 2 [1; 0] = Val [0; 1] /\
+  g_log2 65 2 [0; 1] = Val 64 /\
+  g_checked_log2 65 2 [0; 0] = Val None /\
   g_overflowing_from_limbs_slice 65 2 [7; 3; 0; 9] = Val ([7; 1], true) /\
   g_checked_from_limbs_slice 65 2 [7] = Val (Some [7; 0]) /\
   g_most_significant_bits 130 3 [2 ^ 63; 5; 0] = Val (0xB000000000000000, 3) /\
